@@ -9,14 +9,50 @@ TRUST = ('Trusted: Verus/Z3/rustc; the extractor and its E-rules (DESIGN 2.1); a
          'functions (listed per run in the evidence); laws assumed of the user Types; usize = 64 bit.')
 
 CLAIMS = {
+    'C01': dict(
+        text=('Unbounded deductive proof (Verus) that every accepted write is the reference-log step: each RaftLogState op and RaftLogState::apply '
+              'against the reference step function written from the property text (whole-state equality), RaftLogStateMachine::apply and '
+              'RaftLog::{append_and_apply, save_vote, commit, save_user_data, truncate, purge} against the reference step on state and on the index map '
+              '(insert / cut below / cut above, values untouched), cache contents in the no-eviction regime (insert is exactly map insert), chunk rotation '
+              'changes nothing of the state machine; all chunk limits symbolic.  Not yet decided in this revision: payload-level refinement of read() and the batch append loop.'),
+        note=TRUST + ' History legality of purge (Raft-legal argument) is a stated precondition of the refinement clauses; update_state with an arbitrary state is outside the contracts.',
+        technique='Verus function contracts against a reference step function, on extracted code',
+        design='5 C01',
+    ),
+    'C06': dict(
+        text=('Unbounded deductive proof (Verus): RaftLog::append_and_apply has the postcondition "record not accepted by the reference => Err and *final(self) == *old(self)" '
+              '(whole struct: state, index, cache, journal buffer, offsets, closed chunks, sent messages, removal list), inherited by save_vote, commit, truncate '
+              '(LogIndexNotFound precedes any mutation); accepted records are Ok at the state machine.  On the pinned tree this failed (defects D1-D3), repaired by a fix: commit.'),
+        note=TRUST + ' Batch append applies the valid prefix before failing (finding D16, generic IntoIterator loop not under contract). "after flush and restart" relies on C02.',
+        technique='Verus frame postcondition (Err => nothing changed) on extracted code',
+        design='5 C06',
+    ),
+    'C11': dict(
+        text=('Unbounded deductive proof (Verus) of the journal arithmetic: append_record buffers exactly enc(rec) and pushes end+|enc(rec)|; the segment returned by a write is '
+              '(old end, |enc(rec)|) also when the write triggers a rotation (defect D14, fixed); a chunk is closed iff records >= max_records or size >= max_size right after the write; '
+              'the closed chunk is keyed by its start, the new chunk starts at the old end, its head is State(state at rotation), its file is created under chunk_path(offset) and the head is written; '
+              'the old tail is queued as a synced Write before AppendFile; Inv_WAL (chunks abut) is preserved; on_disk_size == end - oldest start.'),
+        note=TRUST + ' File effects are uninterpreted events of assumed std contracts. The file-name codec (chunk_file_name/parse_chunk_file_name, format!/str) is not under contract. Worker-side placement of writes is part of C04 (unit U7).',
+        technique='Verus function contracts over offset/segment arithmetic and sent-message ghost history, on extracted code',
+        design='5 C11',
+    ),
     'C15': dict(
         text=('Unbounded deductive proof (Verus) on the PayloadCache methods extracted from the working tree on every run: '
               'representation invariant size == sum of resident payload sizes on every method, item count == |map|, '
               '"over a limit => every resident entry is above the evictable boundary" as postcondition of insert/try_evict, '
-              '"drained => nothing at or below the boundary" as postcondition of drain_evictable; generic in T: Types, for all cache limits and all boundaries.'),
+              '"drained => nothing at or below the boundary" as postcondition of drain_evictable; the invariant is carried through RaftLogStateMachine::apply and every RaftLog write op '
+              '(an accepted append inserts a fresh key: invariant I7); generic in T: Types, for all cache limits and all boundaries.'),
         note=TRUST + ' The cache RwLock is sequentialised (rule E6): each method is proved for an arbitrary boundary at entry, which is the only field the worker thread writes. stat() iterator glue is not under contract.',
         technique='Verus function contracts + data-structure invariant on extracted code',
         design='5 C15',
+    ),
+    'C16': dict(
+        text=('Unbounded deductive proof (Verus) of every generated safety obligation (arithmetic overflow/underflow, index bounds, unwrap, std preconditions, reachable panic!) in the functions reachable from '
+              'save_vote, commit, save_user_data, truncate, purge, flush, on_disk_size, log_state, under only the unconditionally preserved invariants (Inv_Cache, I7, wal_safe) and stated magnitude assumptions; '
+              'no precondition on index/argument values except the known finding D6 (index u64::MAX).'),
+        note=TRUST + ' Magnitudes assumed: journal bytes, requests sent, cached bytes < 2^62, one encoded record / one payload < 2^61. read() and the batch append loop: see DESIGN.',
+        technique='Verus safety obligations on extracted code under unconditional invariants',
+        design='5 C16',
     ),
 }
 
